@@ -211,6 +211,29 @@ def check(ctx: Ctx) -> None:
     for pr, flds in all_vocab_parts:
         kinds.setdefault(pr, set()).add(len(flds))
     ctx.floor("vocabulary part kinds", len(kinds), 9)
+    # parts skipped by one membership test -- `if prefix in (PAD.value, START.value, STOP.value): continue`, the tuple possibly named
+    # first -- have a branch too: the empty one
+    subject = next((src(t.left) for _, t, _ in chain if isinstance(t, ast.Compare) and enum_member(t.comparators[0], "TokenisationPrefixes")), None)
+
+    def _members_of(e):
+        if isinstance(e, ast.Name):
+            d = [a for a in walk_local(fd.node) if isinstance(a, ast.Assign) and len(a.targets) == 1 and isinstance(a.targets[0], ast.Name) and a.targets[0].id == e.id]
+            e = d[0].value if len(d) == 1 else e
+        if isinstance(e, (ast.Tuple, ast.List, ast.Set)):
+            ms = [enum_member(x, "TokenisationPrefixes") for x in e.elts]
+            return ms if all(ms) else None
+        return None
+    from ..astutil import _always_leaves
+    for n_ in walk_local(fd.node):
+        if isinstance(n_, ast.If) and isinstance(n_.test, ast.Compare) and len(n_.test.ops) == 1 and isinstance(n_.test.ops[0], (ast.In, ast.NotIn)) \
+                and subject is not None and src(n_.test.left) == subject:
+            ms = _members_of(n_.test.comparators[0])
+            skip_body = n_.body if isinstance(n_.test.ops[0], ast.In) else n_.orelse
+            work_body = n_.orelse if isinstance(n_.test.ops[0], ast.In) else n_.body
+            in_work = any(chain[0][1] is x for y in work_body for x in ast.walk(y))
+            if ms and in_work and not any(isinstance(x, (ast.Raise, ast.Call)) for y in skip_body for x in ast.walk(y) if not (isinstance(x, ast.Call) and "LOGGER" in src(x))):
+                for m_ in ms:
+                    branches.setdefault(m_, list(skip_body))
     for pr in sorted(kinds):
         nf = max(kinds[pr])
         inst = f"vocabulary part <{pr}> with {nf} field(s)"
@@ -221,7 +244,7 @@ def check(ctx: Ctx) -> None:
         reads = []
         for n in ast.walk(ast.Module(body=branches[pr], type_ignores=[])):
             if isinstance(n, ast.Subscript) and isinstance(n.slice, ast.Constant) and isinstance(n.slice.value, int) \
-                    and isinstance(n.value, ast.Subscript) and "part" in src(n.value.value):
+                    and ((isinstance(n.value, ast.Subscript) and "part" in src(n.value.value)) or (isinstance(n.value, ast.Name) and "part" in n.value.id)):
                 par = getattr(n, "_parent", None)
                 wrapped = isinstance(par, ast.Call) and isinstance(par.func, ast.Name) and par.func.id == "int"
                 reads.append((n.slice.value, wrapped, n))
@@ -378,8 +401,8 @@ def thorough(ctx: Ctx) -> None:
 
         def fd(e, interp, st, doms=doms):
             import ast as a_
-            if isinstance(e, a_.Name) and e.id in doms:
-                return doms[e.id][0]
+            if src(e) in doms:
+                return doms[src(e)][0]
             return f"UNKNOWN({short(e, 30)})"
         si = StringInterp(p, fe, fl, fd, out_lists={T.result_list_name(fe.node)}, extra={"insert_bar_token": False, "flag_running_time_signature": True})
         si.run_function(fe.node, {})
